@@ -224,10 +224,12 @@ func (w *World) stepMain(pre *Snapshot, op Op) StepOut {
 		return out
 	}
 	if out.Abort != "" || (pred.Decision == MustReject) {
-		// accepted against the rules: the model has no expected state to compare with
+		// accepted against the rules: the model has no expected state to compare with, but
+		// the state invariants speak for themselves
 		if out.Abort == "" {
 			out.Abort = "accepted against the rules"
 		}
+		out.Viol = append(out.Viol, CheckInvariants(post)...)
 		return out
 	}
 
